@@ -323,6 +323,11 @@ def local_aliases(fn: Func, names: set[str]) -> set[str]:
                 if isinstance(v, ast.Subscript) and _root_name(v) in (names | out) and n.targets[0].id not in out and n.targets[0].id not in names:
                     out.add(n.targets[0].id)
                     changed = True
+                if isinstance(v, ast.BoolOp):
+                    for br in v.values:
+                        if isinstance(br, ast.Name) and (br.id in names or br.id in out) and n.targets[0].id not in out and n.targets[0].id not in names:
+                            out.add(n.targets[0].id)
+                            changed = True
                 if isinstance(v, ast.IfExp):
                     for br in (v.body, v.orelse):
                         if isinstance(br, ast.Name) and (br.id in names or br.id in out) and n.targets[0].id not in out:
